@@ -9,6 +9,14 @@ CLAIMED = {
    text="Proof: authorizerFor (the only path from a token to an authorizer) is under a contract stating acceptance <=> root-signed authority link, every later link under the previously announced key, and the closing proof (next secret matching the last announced key, or seal signature over the last block); the loop invariant carries the chain; newBiscuit and Append are proved to produce exactly such links (payload = block bytes, le32(algorithm), next key).",
    note="Assumed: ed25519 (uninterpreted edVerify/edSign/key derivation with sign-then-verify correctness; EUF-CMA unforgeability is not expressible as a contract), proto.Marshal, binary.PutUint32 (contracts/extern_crypto.spec); wfToken as established by Unmarshal (its decode-side contract is part of C10). Not decided: mutation rejection beyond the iff (it follows from the iff plus EUF-CMA).",
    technique=T, ref="4/C01"),
+ "C03": dict(
+   text="Proof (partial) by write frames inside Authorize: the per-block loop is proved to write neither the working world's fact set (cell and visible elements) nor its rules - every block's facts and rules go into a private clone created for that block (World.Clone is proved to return fresh cells; the clone may share the fact array, and is proved to write only beyond the working world's length). Authorizer checks, authority checks and policies are evaluated before that loop; Query is proved to read the working world only.",
+   note="Not decided: the converse direction as a postcondition (authority and authorizer facts are visible in every block world: follows from World.Clone's same_facts but is not stated on Authorize), and identity of outcomes with/without a block's facts (a relational statement over two runs: outside one-call contracts).",
+   technique=T, ref="4/C03"),
+ "C04": dict(
+   text="Proof (partial): Authorize is under contract with invariants for all 14 loops; proved: a nil result requires a matched allow policy (err == nil ==> some policy of kind allow exists and the policy loop set the verdict from the first matching policy), a failing or limited run is returned as the error, and a nil result implies the fact count is below the limit.",
+   note="Not decided: the full decision procedure as a postcondition (every check has a satisfied query in its scope <=> no check error): it needs a specification-level definition of 'query satisfied in scope', i.e. the Datalog semantics of C05, which is not available as a contract. Error message contents are not specified.",
+   technique=T, ref="4/C04"),
  "C05": dict(
    text="Proof for the leaf operations of the engine: Term.Equal (all 7 implementations against one interface contract), Predicate.Equal/Match/Clone, FactSet.Insert/InsertAll (set semantics, no-growth => subset), advanceIndexes (lexicographic successor with carry), MatchedVariables Insert/Complete/Clone, World AddFact/AddRule/ResetRules/Clone.",
    note="Rule.Apply, combine$1 (join enumeration), World.Run/Run$1 (fixpoint loop) and QueryRule are under contract for well-formedness, frames (the source fact set is never written; new facts only grow), arity agreement of every matched combination and 'nil verdict only when an iteration added nothing'. Not decided: completeness of the enumeration (every matching combination is produced) and minimality of the model - whole-history statements over the sequence of channel values, which the producer/consumer rule does not carry.",
@@ -33,6 +41,10 @@ CLAIMED = {
    text="Proof (producer/consumer rule): the goroutine bodies combine$1 and World.Run$1 are under contract with channel clauses (every sent value satisfies the channel invariant, nothing is sent after a final value, at most one verdict, channel closed on return); Rule.Apply and World.Run are proved against them, with a stranding obligation at every return (the producer is known to have finished, or the buffer covers what it may still send). World.Run's nil verdict is proved to be sent only when an iteration added nothing and the fact count is below the limit; limit plumbing: WithWorldOptions/NewVerifier/AuthorizerFor/Authorizer are proved to hand the caller's options to every world.",
    note="Interleavings are not modelled: a goroutine body is verified as a sequential function and the consumer sees its effects only at receives (sound for the clauses used: they talk about sent values and monotone state). Wall-clock behaviour of the deadline is context.WithTimeout's assumed contract. Not yet under contract: Authorize's mapping of limit errors to authorization failure.",
    technique=T, ref="4/C11"),
+ "C13": dict(
+   text="Proof: Reset is proved to install fresh clones of the base world and base symbol table (same facts, rules, limits, symbols) with empty check and policy lists; Authorize, Query, AddFact, AddRule, AddCheck, AddPolicy are proved (strict write frames) never to write the base world, the base symbol table or their visible contents; the authorizer invariant (working state separate from base state and from the token's own arrays) is proved to be established by the constructors and preserved by every method under contract.",
+   note="Not yet under contract: LoadPolicies, SerializePolicies, PrintWorld, AddBlock/AddAuthorizer wrappers. 'behaves exactly like a new authorizer' is decided as state equality of what Reset installs with what the constructor installs (both are clones of the same base state), not as a relational statement over runs.",
+   technique=T, ref="4/C13"),
  "C16": dict(
    text="Proof: the key-selection closures are proved against the statement (id present and registered -> that key; id present and unknown -> ErrNoPublicKeyAvailable, never the default; no id -> default or the error); newBiscuit stores the identifier given by the options; Append and Seal are proved to carry the parent's identifier (value semantics of *uint32).",
    note="Assumed: protobuf keeps the optional field across serialisation. Not yet under contract: AuthorizerFor's use of the selected key and Build's passing of the option (planned).",
